@@ -40,8 +40,16 @@ impl Sub for Freshness {
     let mut ones = vec![0u32; nl * 8];
     let mut byte_values: Vec<[bool; 256]> = vec![[false; 256]; nl];
     let big = if c.mode == 3 { "x".repeat(70_000) } else { "same payload every time".to_string() };
+    // claims whose NAMES and VALUES look like randomness a builder might be tempted to use (OpenID Connect's `nonce`, a
+    // hex `jti`, `seed`, `iv`, `rnd`): they are payload, never nonce material
+    let hex64 = "000102030405060708090a0b0c0d0e0f101112131415161718191a1b1c1d1e1f";
     let fixed_claims = [
       ClaimSpec::Custom("data".into(), json!(big)),
+      ClaimSpec::Custom("nonce".into(), json!(if p == Proto::V2L { &hex64[..48] } else { hex64 })),
+      ClaimSpec::Jti(hex64.into()),
+      ClaimSpec::Custom("seed".into(), json!(hex64)),
+      ClaimSpec::Custom("iv".into(), json!(&hex64[..32])),
+      ClaimSpec::Custom("rnd".into(), json!(12345)),
       ClaimSpec::Exp("2999-01-01T00:00:00Z".into()),
       ClaimSpec::Iat("2000-01-01T00:00:00Z".into()),
       ClaimSpec::Nbf("2000-01-01T00:00:00Z".into()),
